@@ -546,7 +546,7 @@ from lib import formats                                        # noqa: E402
 
 # one label is a prefix of another (H / He): labels are compared as wholes, never as substrings
 SPL = {1: "H", 2: "He", 3: "Fe", 9: "Zz"}
-V_TARGETS = {False: ["LAMMPS", "GULP", "DL_POLY", "setfl", "DL_POLY_EAM", "excel_eam", "excel"], True: ["setfl_fs", "DL_POLY_EAM_fs", "excel_eam_fs"]}
+V_TARGETS = {False: ["LAMMPS", "GULP", "DL_POLY", "setfl", "DL_POLY_EAM", "excel_eam", "excel", "eam_adp"], True: ["setfl_fs", "DL_POLY_EAM_fs", "excel_eam_fs"]}
 
 
 def v_entry(e, lst, fs):
@@ -565,6 +565,11 @@ def v_render(doc, target):
     out += ["[Pair]"] + [v_entry(e, "pair", doc["fs"]) for e in doc["pair"]] + [""]
     out += ["[EAM-Embed]"] + [v_entry(e, "embed", doc["fs"]) for e in doc["embed"]] + [""]
     out += ["[EAM-Density]"] + [v_entry(e, "dens", doc["fs"]) for e in doc["dens"]] + [""]
+    if target == "eam_adp":
+        # the statement names pair, embedding and density entries: the dipole / quadrupole sections are in the hand-deleted file as
+        # they are in the original (a function for a pair that has lost an element is simply not tabulated)
+        out += ["[EAM-ADP-Dipole]", "%s-%s : as.polynomial 41 1" % (SPL[1], SPL[2]), "%s-%s : as.polynomial 42 1" % (SPL[3], SPL[3]), "",
+                "[EAM-ADP-Quadrupole]", "%s-%s : as.polynomial 43 1" % (SPL[2], SPL[3]), "%s-%s : as.polynomial 44 1" % (SPL[1], SPL[1]), ""]
     return "\n".join(out) + "\n"
 
 
